@@ -10161,6 +10161,12 @@ simplifier_output_sites(simplifier_t *self)
             mutation.node = mutation_node_map[j];
             mutation.site = site_id_map[mutation.site];
             if (mutation.parent != TSK_NULL) {
+                /* Mutation ordering is not part of the integrity checks made on
+                 * entry, and the map is only filled in for earlier rows */
+                if (mutation.parent > (tsk_id_t) j) {
+                    ret = tsk_trace_error(TSK_ERR_MUTATION_PARENT_AFTER_CHILD);
+                    goto out;
+                }
                 mutation.parent = mutation_id_map[mutation.parent];
             }
             ret_id = tsk_mutation_table_add_row(&self->tables->mutations, mutation.site,
